@@ -36,8 +36,14 @@ def analyse(wd, mode):
         if cur is None: continue
         cur.append(o)
         res['hist'][o.split()[0]] += 1
-        if bad: continue
         sp = spec[i]
+        if bad:
+            # a model/implementation disagreement has been recorded for this sequence; the spec verdict on the
+            # implementation's later replies is independent of the model, so keep looking for a genuine failing input
+            if bad != 'spec' and 'IMPL-SPEC-FAIL' in sp:
+                bad = 'spec'
+                res['problems'].append((list(cur), i - start, 'impl-violates-spec', 'op=%s | impl=%s | spec=%s' % (o, impl[i][:300], sp[:300])))
+            continue
         if sp.startswith('X'): res['out_contract'] += 1
         elif 'OK' in sp or sp == 'new': res['in_contract'] += 1
         kind = None
@@ -52,7 +58,7 @@ def analyse(wd, mode):
         elif mode != 'valid' and (impl[i] == 'panic') != (model[i] == 'panic'):
             kind = 'crash-disagreement'
         if kind:
-            bad = True
+            bad = 'spec' if kind == 'impl-violates-spec' else 'model'
             res['problems'].append((list(cur), i - start, kind, 'op=%s | impl=%s | model=%s | spec=%s' % (o, impl[i][:300], model[i][:300], sp[:300])))
     if cur is not None and n > start + 1:
         res['finals'].add(impl[n - 1].split(' ## ')[-1])
